@@ -229,6 +229,27 @@ pub fn run(tier: Tier, seed: u64) -> i32 {
         }
         keys.push((alt, "N with every other byte complemented"));
     }
+    // N in another byte order: the big-endian spelling of N (a public constant of the library) read as a
+    // little-endian key, N with each 2/4/8/16-byte word byte-reversed, N with its words in reverse order
+    {
+        let mut rev = N_LE;
+        rev.reverse();
+        keys.push((rev, "big-endian spelling of N"));
+        keys.push((wow_srp::LARGE_SAFE_PRIME_BIG_ENDIAN, "big-endian spelling of N"));
+        for wsz in [2usize, 4, 8, 16] {
+            let mut k = N_LE;
+            for w in k.chunks_mut(wsz) {
+                w.reverse();
+            }
+            keys.push((k, "N with each word byte-reversed"));
+            let mut k = [0u8; 32];
+            let nw = 32 / wsz;
+            for w in 0..nw {
+                k[(nw - 1 - w) * wsz..(nw - w) * wsz].copy_from_slice(&N_LE[w * wsz..(w + 1) * wsz]);
+            }
+            keys.push((k, "N with its words in reverse order"));
+        }
+    }
     for pk in private_keys(seed, true) {
         keys.push((pk, "pk-alphabet"));
     }
